@@ -627,7 +627,8 @@ func (t *Topo) Fixture() (string, error) {
 	if base == "" {
 		base = os.TempDir()
 	}
-	root := filepath.Join(base, "fx-"+key)
+	// (per process: fuzz workers and helper processes share the scratch directory)
+	root := filepath.Join(base, fmt.Sprintf("fx-%d-%s", os.Getpid(), key))
 	if err := t.Write(root); err != nil {
 		return "", err
 	}
